@@ -2,9 +2,10 @@
 
 Tables are read from the imported package where a value is what matters
 (precedences, operator maps, regex sources, limits, signatures, exception
-hierarchy) and from the source AST where structure is what matters (the CLI's
-`except` clauses, attribute stores outside `__init__`, calls into `random`, the
-arguments of the regex engine calls).  Failure to extract is reported by raising
+hierarchy), from the source AST where structure is what matters (attribute stores
+outside `__init__`, calls into `random`, the arguments of the regex engine calls),
+and by running the code over a finite domain where behaviour is what matters (the
+CLI's error handling: every exception class at every step, with and without --debug).  Failure to extract is reported by raising
 `TieABroken`; the caller treats that like a broken proof, never skips it.
 """
 from __future__ import annotations
@@ -116,7 +117,114 @@ def extract():
         raise TieABroken(f"table extraction failed: {err!r}") from err
 
     t.update(extract_ast())
+    t.update(extract_cli_behaviour())
     return t
+
+
+def extract_cli_behaviour():
+    """The CLI's decision table, obtained by running cli.handle_path_command itself once for every
+    (stage, exception class, --debug) of a finite domain: the step of that stage is made to raise an instance of
+    the class (compile / find / values by wrapping the library's own methods, load by handing json.load an
+    undecodable document), and what the command does is recorded: exit status, lines on stderr, whether the
+    exception escaped (a traceback), whether anything reached the output.  One more run with nothing raising
+    records the data flow query -> compile -> load -> find -> values -> output.  Exhaustive over that domain, so
+    it survives any rewrite of the handlers that keeps their behaviour; assumes only that a handler's behaviour
+    depends on the class of the exception and not on its message."""
+    import argparse  # noqa: F401
+    import contextlib
+    import io
+    import json
+    import tempfile
+
+    try:
+        import jsonpath_rfc9535 as jp
+        from jsonpath_rfc9535 import cli
+        from jsonpath_rfc9535 import exceptions as ex
+        from jsonpath_rfc9535.tokens import Token, TokenType
+
+        classes = []
+        for n in sorted(dir(ex)):
+            o = getattr(ex, n)
+            if isinstance(o, type) and issubclass(o, BaseException) and o.__module__ == ex.__name__:
+                classes.append(o)
+        tok = Token(TokenType.ERROR, "x", 0, "$.a")
+
+        def make(cls):
+            try:
+                return cls("boom", token=tok)
+            except TypeError:
+                return cls("boom")
+
+        Env, Query, NodeList = jp.JSONPathEnvironment, jp.JSONPathQuery, jp.JSONPathNodeList
+        orig = (Env.compile, Query.find, NodeList.values)
+        work = os.path.join(VERIF, ".work")
+        os.makedirs(work, exist_ok=True)
+        rows = []
+        trace = []
+
+        def run(stage, exc, debug, doc_bytes=b'{"a": [1, 2]}', log=None):
+            def compile_(self, query, *a, **k):
+                if log is not None:
+                    log.append("compile:" + query)
+                if stage == "compile":
+                    raise exc
+                return orig[0](self, query, *a, **k)
+
+            def find_(self, data, *a, **k):
+                if log is not None:
+                    log.append("find:" + json.dumps(data, sort_keys=True))
+                if stage == "find":
+                    raise exc
+                return orig[1](self, data, *a, **k)
+
+            def values_(self, *a, **k):
+                if stage == "values":
+                    raise exc
+                r = orig[2](self, *a, **k)
+                if log is not None:
+                    log.append("values:" + json.dumps(r, sort_keys=True))
+                return r
+
+            with tempfile.NamedTemporaryFile(dir=work, suffix=".json", delete=False) as fd:
+                fd.write(doc_bytes)
+                dpath = fd.name
+            out, err = io.StringIO(), io.StringIO()
+            code, escaped = 0, False
+            Env.compile, Query.find, NodeList.values = compile_, find_, values_
+            try:
+                args = cli.setup_parser().parse_args((["--debug"] if debug else []) + ["-q", "$.a", "-f", dpath])
+                args.output = out
+                with contextlib.redirect_stderr(err), contextlib.redirect_stdout(io.StringIO()):
+                    try:
+                        args.func(args)
+                    except SystemExit as e:
+                        code = e.code if isinstance(e.code, int) else (0 if e.code is None else 1)
+                    except BaseException:  # noqa: BLE001
+                        code, escaped = 1, True
+            finally:
+                Env.compile, Query.find, NodeList.values = orig
+                try:
+                    args.file.close()
+                except Exception:  # noqa: BLE001
+                    pass
+                os.unlink(dpath)
+            if log is not None:
+                log.append("output:" + out.getvalue())
+            return (code, 0 if escaped else err.getvalue().count("\n"), escaped, out.getvalue() != "")
+
+        for debug in (False, True):
+            for stage in ("compile", "find", "values"):
+                for cls in classes:
+                    rows.append((stage, cls.__name__, debug, run(stage, make(cls), debug)))
+            rows.append(("load", "JSONDecodeError", debug, run("load", None, debug, doc_bytes=b'{"a": ')))
+            rows.append(("load", "UnicodeDecodeError", debug, run("load", None, debug, doc_bytes=b'{"a": "\xff"}')))
+        ok = run("ok", None, False, log=trace)
+        rows.append(("ok", "", False, ok))
+        return {"cliBehaviour": rows, "cliTrace": trace}
+    except TieABroken:
+        raise
+    except Exception as err:  # noqa: BLE001
+        raise TieABroken(f"CLI behaviour extraction failed: {err!r}") from err
 
 
 def _src(rel):
@@ -141,54 +249,6 @@ def _name(node) -> str:
 def extract_ast():
     t = {}
     try:
-        # --- CLI handler table: for each try in handle_path_command, its except clauses
-        tree = ast.parse(_src("cli.py"))
-        fn = [n for n in ast.walk(tree) if isinstance(n, ast.FunctionDef) and n.name == "handle_path_command"]
-        if len(fn) != 1:
-            raise TieABroken("cli.handle_path_command not found")
-        tries = [n for n in fn[0].body if isinstance(n, ast.Try)]
-        handlers = []
-        for tr in tries:
-            clauses = []
-            for h in tr.handlers:
-                if h.type is None:
-                    names = ["BaseException"]
-                elif isinstance(h.type, ast.Tuple):
-                    names = [_name(e).split(".")[-1] for e in h.type.elts]
-                else:
-                    names = [_name(h.type).split(".")[-1]]
-                # what the clause does: re-raise under --debug, write to stderr, exit non-zero
-                body_src = ast.unparse(ast.Module(body=h.body, type_ignores=[]))
-                shape = []
-                if "raise" in body_src:
-                    shape.append("reraise-if-debug" if "args.debug" in body_src else "reraise")
-                if "sys.stderr.write" in body_src:
-                    shape.append("stderr")
-                if "sys.exit(1)" in body_src:
-                    shape.append("exit1")
-                elif "sys.exit(" in body_src:
-                    shape.append("exit?")
-                clauses.append((names, "+".join(shape)))
-            called = sorted(
-                {
-                    _name(c.func)
-                    for s in tr.body
-                    for c in ast.walk(s)
-                    if isinstance(c, ast.Call)
-                }
-            )
-            handlers.append((called, clauses))
-        t["cliTries"] = handlers
-        # statements after the last try (the output step)
-        tail = []
-        seen_last = False
-        for n in fn[0].body:
-            if seen_last:
-                tail.append(ast.unparse(n))
-            if tries and n is tries[-1]:
-                seen_last = True
-        t["cliTail"] = tail
-
         # --- regex engine calls in match.py / search.py
         calls = []
         for rel in ("function_extensions/match.py", "function_extensions/search.py"):
@@ -363,15 +423,13 @@ def render(t) -> str:
         + llist(f"({lstr(n)}, {llist(lstr(p) for p in ps)})" for n, ps in t["excParents"])
     )
     L.append(
-        "def cliTries : List (List String × List (List String × String)) := "
+        "def cliBehaviour : List (String × String × Bool × (Nat × Nat × Bool × Bool)) := "
         + llist(
-            "(" + llist(lstr(c) for c in called) + ", "
-            + llist("(" + llist(lstr(n) for n in names) + ", " + lstr(shape) + ")" for names, shape in clauses)
-            + ")"
-            for called, clauses in t["cliTries"]
+            f"({lstr(st)}, {lstr(c)}, {'true' if d else 'false'}, ({r[0]}, {r[1]}, {'true' if r[2] else 'false'}, {'true' if r[3] else 'false'}))"
+            for st, c, d, r in t["cliBehaviour"]
         )
     )
-    strs("cliTail", t["cliTail"])
+    strs("cliTrace", t["cliTrace"])
     L.append(
         "def reCalls : List (String × String × Nat × List String) := "
         + llist(f"({lstr(a)}, {lstr(b)}, {c}, {llist(lstr(x) for x in d)})" for a, b, c, d in t["reCalls"])
